@@ -18,7 +18,8 @@ var (
 	ErrSessExpired     = errors.New("session expired")
 	ErrHitMaxReconnect = errors.New("hit max reconnect count")
 
-	errConnClosed = errors.New("client conn closed")
+	errConnClosed   = errors.New("client conn closed")
+	errClientClosed = errors.New("client closed")
 )
 
 // client is an socket client interface
@@ -104,6 +105,8 @@ type client struct {
 
 	subs map[uint32][]func(*protocol.Packet)
 
+	closeOnce sync.Once
+
 	recvsMu sync.RWMutex
 	recvs   map[uint32]*waiter
 
@@ -157,9 +160,24 @@ func (c *client) AuthInfo() *control.AuthResponse {
 	return c.authInfo
 }
 
+func (c *client) closed() bool {
+	select {
+	case <-c.closeCh:
+		return true
+	default:
+	}
+	return false
+}
+
 func (c *client) dial(ctx context.Context, dialer DialConnFunc) (err error) {
 	c.Lock()
 	defer c.Unlock()
+
+	// a closed client never dials again
+	if c.closed() {
+		return errClientClosed
+	}
+
 	if c.conn, err = dialer(ctx, c.Logger, c.addr, c.handshake, c.dialOptions); err == nil {
 		conn := c.conn
 		conn.OnPacket(func(p *protocol.Packet, e error) {
@@ -214,6 +232,11 @@ func (c *client) auth() error {
 
 func (c *client) reconnecting() {
 	verifhook.Point("reconnecting:enter")
+	// a closed client never reconnects
+	if c.closed() {
+		return
+	}
+
 	c.Lock()
 	if c.doReconnectting {
 		c.Unlock()
@@ -232,6 +255,10 @@ func (c *client) reconnecting() {
 		}()
 
 		for {
+			if c.closed() {
+				return
+			}
+
 			c.Logger.Info("start reconnecting.")
 			verifhook.Point("reconnect:attempt")
 
@@ -239,7 +266,7 @@ func (c *client) reconnecting() {
 
 			if err == nil {
 				c.Logger.Info("reconnect success")
-				if c.afterReconnected != nil {
+				if c.afterReconnected != nil && !c.closed() {
 					c.afterReconnected()
 				}
 				return
@@ -436,15 +463,18 @@ func (c *client) Close(err error) error {
 	verifhook.Point("client.Close:enter")
 	defer verifhook.Point("client.Close:return")
 	c.Logger.Info("close client")
-	close(c.closeCh)
-	c.RLock()
-	if c.conn != nil {
-		c.conn.Close(errors.New("close by client"))
-	}
-	c.RUnlock()
-	if c.onClose != nil {
-		c.onClose(err)
-	}
+	// Close can only take effect once
+	c.closeOnce.Do(func() {
+		close(c.closeCh)
+		c.RLock()
+		if c.conn != nil {
+			c.conn.Close(errors.New("close by client"))
+		}
+		c.RUnlock()
+		if c.onClose != nil {
+			c.onClose(err)
+		}
+	})
 	return nil
 }
 
